@@ -3,7 +3,7 @@ Require Extraction.
 Require Import ExtrOcamlBasic.
 Extraction Language OCaml.
 Extraction "C05_model.ml" wire_anchor
-  span_front span_back span_index span_first span_last span_subspan
+  span_front span_back span_index span_first span_last span_subspan span_tfirst span_tlast span_tsubspan span_tsubspan_site span_ctor_count pre_span_ctor
   sv_index sv_front sv_back sv_remove_prefix sv_remove_suffix sv_copy sv_substr
   opt_deref exp_deref exp_error var_subscript var_unchecked_get div_sat_guard day_ctor month_ctor
   bit_guard bitset_guard array_index layout_stride_guard nonnull2
